@@ -234,6 +234,9 @@ fn scn_configs(o: &Opts, tr: &mut Tr, prop: &str) {
         }
     }
     if prop == "C10" {
+        bulk_streamcomp(o, tr, prop, &mut r, 300, 2500);
+    }
+    if prop == "C10" {
         // skewed symbol statistics: code lengths must be limited to 15 bits (checked by the acceptor)
         for (k, (lvl, st, n)) in [(6u8, 0usize, 40_000usize), (1, 0, 70_000), (9, 2, 30_000), (2, 1, 50_000), (6, 3, 25_000)].iter().enumerate() {
             let data = gen::data("fibo", *n, &mut r);
@@ -331,6 +334,26 @@ fn main() {
     println!("{}", s);
 }
 
+/// Cheap exploration of streaming compression: many (data, configuration, schedule) triples are
+/// executed; only a case the crate's own round trip finds wrong (or that panicked / broke a count)
+/// is written out, where TLC judges it like any other.
+fn bulk_streamcomp(o: &Opts, tr: &mut Tr, prop: &str, r: &mut rand::rngs::StdRng, n_quick: usize, n_thorough: usize) {
+    let nbulk = if o.thorough { n_thorough } else { n_quick };
+    for bi in 0..nbulk {
+        let kind = ["litmatch", "lazycut", "mixed", "text", "sparse3", "alpha4", "runs", "period3", "zeros", "wrapruns", "lazycut"][bi % 11];
+        let size = [60_000usize, 130_000, 200_000, 90_000, 32_768, 65_536, 33_000][bi % 7] + r.gen_range(0..5000) * (bi % 3);
+        let data = gen::data(kind, size, r);
+        let lvl = [4u8, 5, 6, 7, 8, 9, 10, 1, 2, 3, 0][bi % 11];
+        let cfg = Cfg { zlib: bi % 2 == 1, level: lvl, strat: [0usize, 0, 3, 1, 4, 2, 0, 3][bi % 8], wbits: [15u8, 15, 15, 12, 9][bi % 5], api: "params" };
+        let sch = Sched { chunk_pat: ["fixed500", "rand", "fixed4096", "fixed77"][bi % 4].into(),
+                          outs: [vec![128], vec![64, 500], vec![1000, 85195], vec![7, 4096, 100000]][(bi / 2) % 4].clone(),
+                          flush_pct: [0, 0, 3, 10][bi % 4], flush_set: vec![2, 3, 7, 1], callback: false, max_points: 0 };
+        tr.hold();
+        let sus = stream_comp_case(tr, &format!("scbulk-{}-{}-{}-l{}", bi, kind, size, lvl), prop, &data, &cfg, &sch, r, kind);
+        tr.release(sus);
+    }
+}
+
 /// C02: streaming compression under arbitrary schedules and configurations.
 fn scn_streamcomp(o: &Opts, tr: &mut Tr, prop: &str) {
     let mut r = gen::rng(o.seed, 222);
@@ -382,23 +405,7 @@ fn scn_streamcomp(o: &Opts, tr: &mut Tr, prop: &str) {
         let sch = Sched { chunk_pat: "fixed500".into(), outs: vec![*ol], flush_pct: 0, flush_set: vec![], callback: false, max_points: 0 };
         stream_comp_case(tr, &format!("sclazy-{}-{}-l{}-o{}", kind, size, lvl, ol), prop, &data, &cfg, &sch, &mut r, kind);
     }
-    // cheap exploration: many more schedules of the same families are executed, but only a case
-    // the crate's own round trip finds wrong (or that panicked / broke a count) is written out,
-    // where TLC judges it like any other
-    let nbulk = if o.thorough { 5000 } else { 600 };
-    for bi in 0..nbulk {
-        let kind = ["litmatch", "lazycut", "mixed", "text", "sparse3", "alpha4", "runs", "period3", "zeros", "wrapruns", "lazycut"][bi % 11];
-        let size = [60_000usize, 130_000, 200_000, 90_000, 32_768, 65_536, 33_000][bi % 7] + r.gen_range(0..5000) * (bi % 3);
-        let data = gen::data(kind, size, &mut r);
-        let lvl = [4u8, 5, 6, 7, 8, 9, 10, 1, 2, 3, 0][bi % 11];
-        let cfg = Cfg { zlib: bi % 2 == 1, level: lvl, strat: [0usize, 0, 3, 1, 4, 2, 0, 3][bi % 8], wbits: [15u8, 15, 15, 12, 9][bi % 5], api: "params" };
-        let sch = Sched { chunk_pat: ["fixed500", "rand", "fixed4096", "fixed77"][bi % 4].into(),
-                          outs: [vec![128], vec![64, 500], vec![1000, 85195], vec![7, 4096, 100000]][(bi / 2) % 4].clone(),
-                          flush_pct: [0, 0, 3, 10][bi % 4], flush_set: vec![2, 3, 7, 1], callback: false, max_points: 0 };
-        tr.hold();
-        let sus = stream_comp_case(tr, &format!("scbulk-{}-{}-{}-l{}", bi, kind, size, lvl), prop, &data, &cfg, &sch, &mut r, kind);
-        tr.release(sus);
-    }
+    bulk_streamcomp(o, tr, prop, &mut r, 600, 5000);
     // stored route: a call whose last byte triggers the internal 31 KiB block cut, with a flush
     // requested in the same call and an output buffer smaller than the block
     let mut ti = 0;
